@@ -1550,6 +1550,129 @@ fn chain_case(k: u64) -> Option<Program> {
     })
 }
 
+
+// ------------------------------------------------------------------ shapes of import lists
+
+/// kinds of items of an import list below the prefix `pkg.aa`
+/// (`x` is the name the item imports):
+/// `L` `x` · `M` `bb.x` · `G` `bb.{x}` · `D` `dd.{x}` · `B` `{x}` · `N` `bb.{cc.{x}, tt}`
+const LIST_KINDS: [char; 6] = ['L', 'M', 'G', 'D', 'B', 'N'];
+
+/// the shapes: every sequence of two kinds (but `N, N`: `tt` twice) and every
+/// sequence of three of the first five kinds, at module level; the sequences of
+/// two again in a block
+fn list_shapes() -> Vec<(Vec<char>, bool)> {
+    let mut out = vec![];
+    for block in [false, true] {
+        for a in LIST_KINDS {
+            for b in LIST_KINDS {
+                if !(a == 'N' && b == 'N') {
+                    out.push((vec![a, b], block));
+                }
+            }
+        }
+        if !block {
+            for a in &LIST_KINDS[..5] {
+                for b in &LIST_KINDS[..5] {
+                    for c in &LIST_KINDS[..5] {
+                        out.push((vec![*a, *b, *c], false));
+                    }
+                }
+            }
+        }
+    }
+    out
+}
+
+fn list_cases() -> u64 {
+    list_shapes().len() as u64
+}
+
+/// class representatives: one `import pkg.aa.{…};` whose list has the `k`-th
+/// shape — every position of a group (`bb.{…}`, `dd.{…}`, `{…}`, two levels deep)
+/// relative to plain and multi-segment items.  `aa`, `aa.bb`, `aa.bb.cc` and
+/// `aa.dd` all declare `ff`, `gg`, `kk` and `tt` with different tags, so a path
+/// expanded under the wrong prefix is a *different item* (or no item), and the
+/// meaning of every alias is fixed by construction (not by `ImpTree::flatten`).
+fn list_case(k: u64) -> Option<Program> {
+    let shapes = list_shapes();
+    let (shape, in_block) = shapes.get(k as usize)?.clone();
+    let (aa, bb, cc, ff, gg, kk, tt) = (3, 4, 5, 6, 7, 8, 9);
+    let mut names = base_names();
+    let c0 = names.len();
+    names.extend(["cx0", "dd", "uu"].iter().map(|s| s.to_string()));
+    let (cx0, dd, uu) = (c0, c0 + 1, c0 + 2);
+    let f = |name, tag| ItemD::Fn { name, tag, body: None };
+    let members = |base: i64| vec![f(ff, base + 1), f(gg, base + 2), f(kk, base + 3), f(tt, base + 4)];
+    let mut mods = vec![
+        ModD { ident: PKG, parent: None, items: vec![] },
+        ModD { ident: aa, parent: Some(0), items: members(1100) },
+        ModD { ident: bb, parent: Some(1), items: members(1200) },
+        ModD { ident: cc, parent: Some(2), items: members(1300) },
+        ModD { ident: dd, parent: Some(1), items: members(1400) },
+    ];
+    let item_names = [ff, gg, kk];
+    let mut items = vec![];
+    let mut expect: Vec<(usize, i64)> = vec![];
+    let mut probes = vec![];
+    let mut probe = |name: usize, tag: i64, probes: &mut Vec<Stmt>| {
+        let id = probes.len();
+        probes.push(Stmt::Probe { id, kind: PKind::Fn, path: vec![name], form: "list" });
+        expect.push((id, tag));
+    };
+    for (j, kind) in shape.iter().enumerate() {
+        let x = item_names[j];
+        let off = j as i64 + 1;
+        match kind {
+            'L' => {
+                items.push(leaf(&[x]));
+                probe(x, 1100 + off, &mut probes);
+            }
+            'M' => {
+                items.push(leaf(&[bb, x]));
+                probe(x, 1200 + off, &mut probes);
+            }
+            'G' => {
+                items.push(ImpTree::List(vec![bb], vec![leaf(&[x])]));
+                probe(x, 1200 + off, &mut probes);
+            }
+            'D' => {
+                items.push(ImpTree::List(vec![dd], vec![leaf(&[x])]));
+                probe(x, 1400 + off, &mut probes);
+            }
+            'B' => {
+                items.push(ImpTree::List(vec![], vec![leaf(&[x])]));
+                probe(x, 1100 + off, &mut probes);
+            }
+            _ => {
+                items.push(ImpTree::List(vec![bb], vec![ImpTree::List(vec![cc], vec![leaf(&[x])]), leaf(&[tt])]));
+                probe(x, 1300 + off, &mut probes);
+                probe(tt, 1204, &mut probes);
+            }
+        }
+    }
+    let written = vec![ImpTree::List(vec![PKG, aa], items)];
+    let user = if in_block {
+        ModD { ident: uu, parent: Some(0), items: vec![ItemD::Fn { name: cx0, tag: 900, body: Some(Block { imports: vec![], stmts: vec![
+            Stmt::Block(1, Block { imports: written, stmts: probes }),
+        ] }) }] }
+    } else {
+        ModD { ident: uu, parent: Some(0), items: vec![
+            ItemD::Imports(written),
+            ItemD::Fn { name: cx0, tag: 900, body: Some(Block { imports: vec![], stmts: probes }) },
+        ] }
+    };
+    mods.push(user);
+    Some(Program {
+        names,
+        rt: vec![],
+        mods,
+        nprobes: expect.len(),
+        note: format!("import list of shape {} below `pkg.aa`, {} level", shape.iter().collect::<String>(), if in_block { "block" } else { "module" }),
+        expect,
+    })
+}
+
 /// the property for trees whose meaning is fixed by construction: every order of
 /// a dependency chain compiles and every reference means the designated item
 fn expect_oracle(rep: &mut Report, p: &Program, res: &CaseResult, ident: &J, label: &str) {
@@ -1564,13 +1687,19 @@ fn expect_oracle(rep: &mut Report, p: &Program, res: &CaseResult, ident: &J, lab
         rep.evaluations += 1;
         if got != Out::Ok(*tag) {
             let what = if matches!(got, Out::Ok(_)) { "wrong-item" } else { "rejected" };
+            let is_list = p.note.starts_with("import list");
+            let why = if is_list {
+                "an item of a nested import list is the path made of the prefixes of the groups that enclose it, then its own segments"
+            } else {
+                "in every order of the imports: each import is resolvable once the import of the same scope it depends on has been processed"
+            };
             violate(
                 rep,
                 &format!(
-                    "{}: the reference `{}` must mean the item with tag {tag} in every order of the imports (each import is resolvable once the import of the same scope it depends on has been processed), the compiler says {} ({label})",
+                    "{}: the reference `{}` must mean the item with tag {tag} ({why}), the compiler says {} ({label})",
                     p.note, infos.get(id).map(|i| path_str(&i.path, &p.names)).unwrap_or_default(), got.show()
                 ),
-                &format!("import-chain:{what}"),
+                &format!("{}:{what}", if is_list { "import-list" } else { "import-chain" }),
                 json!({"case": ident, "variant": label, "probe": id, "sources": sources_json(p, &all, &empty)}),
             );
         }
@@ -2600,7 +2729,21 @@ fn check_disk(rep: &mut Report, drv: &mut Driver, p: &Program, keep: &dyn Fn(usi
     let tree = match FileTree::read(&root) {
         Ok(t) => t,
         Err(e) => {
-            rep.mismatch(&format!("FileTree::read failed on a generated directory: {}", err_class(&format!("{e}"))), json!({"case": ident, "variant": label}));
+            // the directory holds the generated tree (identifier-shaped names, `pkg.roto`,
+            // `name.roto` / `name/mod.roto`) plus noise the documented rules ignore: when the
+            // documented discovery (model) yields a tree, failing to read it is a violation
+            // of the property itself — e.g. same-named modules in different directories
+            let msg = strip_ansi(&format!("{e}"));
+            if want != "none" {
+                violate(
+                    rep,
+                    &format!("a valid package directory (modules {want}) was rejected by FileTree::read: {}", msg.lines().take(3).collect::<Vec<_>>().join(" | ").chars().take(300).collect::<String>()),
+                    "discovery:valid-tree-rejected",
+                    json!({"case": ident, "variant": label, "listing": toks.join(" ")}),
+                );
+            } else {
+                rep.mismatch(&format!("FileTree::read failed on a generated directory: {}", err_class(&format!("{e}"))), json!({"case": ident, "variant": label}));
+            }
             let _ = std::fs::remove_dir_all(&root);
             return;
         }
@@ -2639,7 +2782,8 @@ fn check_disk(rep: &mut Report, drv: &mut Driver, p: &Program, keep: &dyn Fn(usi
         let mut mp: Vec<Vec<String>> = vec![];
         for m in &p.mods {
             let mut path = match m.parent { Some(pi) if pi < mp.len() => mp[pi].clone(), _ => vec![] };
-            path.push(p.names[m.ident].clone());
+            // the root of a package on disk is `pkg.roto` whatever the tree calls its root (fixed tree 8)
+            path.push(if m.parent.is_none() { "pkg".to_string() } else { p.names[m.ident].clone() });
             mp.push(path);
         }
         want_paths = mp.iter().map(|x| x.join(".")).collect();
@@ -2668,7 +2812,8 @@ fn check_disk(rep: &mut Report, drv: &mut Driver, p: &Program, keep: &dyn Fn(usi
     let _ = std::fs::remove_dir_all(&root);
     // `name.roto` next to `name/mod.roto`: two modules of one name — an error, not a silent choice
     if noise & (1 << 25) != 0 {
-        if let Some(c) = children_of(p, 0).into_iter().find(|c| !children_of(p, *c).is_empty()) {
+        // (`pkg.roto` / `mod.roto` are the directory's own file, not a module next to it)
+        if let Some(c) = children_of(p, 0).into_iter().find(|c| !children_of(p, *c).is_empty() && !matches!(p.names[p.mods[*c].ident].as_str(), "pkg" | "mod")) {
             write_tree(p, 0, &root, keep, tags, 0);
             let name = &p.names[p.mods[c].ident];
             std::fs::write(root.join(format!("{name}.roto")), "fn zz() -> i64 { 0 }\n").expect("write");
@@ -2735,7 +2880,9 @@ fn check_disk(rep: &mut Report, drv: &mut Driver, p: &Program, keep: &dyn Fn(usi
 
 fn check_case(rep: &mut Report, drv: &mut Driver, p: &Program, ident: J, tier: &str, index: u64) -> CaseResult {
     let max_err = if tier == "thorough" { 12 } else { 6 };
-    let disk = if index % 3 == 0 { Some(Prng::for_case(index, 77).next()) } else { None };
+    // every third tree, and every fixed boundary tree (same-named modules in different
+    // directories, a directory called `pkg`, …), is also written to disk and discovered
+    let disk = if index % 3 == 0 || (index as usize) < fixed_cases().len() { Some(Prng::for_case(index, 77).next()) } else { None };
     let first = check_variant(rep, drv, p, "as-written", &ident, max_err, disk);
     expect_oracle(rep, p, &first, &ident, "as-written");
     // import order: the same tree with every scope's imports reversed
@@ -2857,6 +3004,20 @@ fn run_range(seed: u64, tier: &str, from: u64, n: u64, rep: &mut Report) {
             enum_chain_case(rep, index - nfixed - nchain, &ident);
             continue;
         }
+        let nlist0 = nfixed + nchain + ENUM_CHAIN_CASES;
+        if index >= nlist0 && index < nlist0 + list_cases() {
+            // one shape of a nested import list: model vs compiler vs the meaning fixed by construction
+            let p = list_case(index - nlist0).expect("list case");
+            let shape = p.note.split_whitespace().nth(4).unwrap_or("").to_string();
+            rep.hist("import_list_shape", format!("len{}", shape.len()));
+            let r = check_variant(rep, &mut drv, &p, "as-written", &ident, 6, None);
+            expect_oracle(rep, &p, &r, &ident, "as-written");
+            for c in r.class {
+                rep.class(c);
+            }
+            rep.class(format!("list|{}", p.note.split(" below").next().unwrap_or("")));
+            continue;
+        }
         let mut p = if index < nfixed { fixed[index as usize].clone() } else { gen_case(&mut drv, seed, index, tier) };
         normalize_order(&mut p);
         rep.hist("modules_per_tree", p.mods.len().to_string());
@@ -2878,7 +3039,7 @@ fn main() {
         Some("run") => {
             let seed: u64 = args[2].parse().expect("seed");
             let tier = args.get(3).map(|s| s.as_str()).unwrap_or("quick");
-            let total: u64 = match tier { "thorough" => 24000, "search" => 4000, _ => 1500 };
+            let total: u64 = match tier { "thorough" => 24000, "search" => 4000, _ => 1700 };
             let mut rep = Report::default();
             let seed_s = seed.to_string();
             // directories left behind by workers that died in an earlier run
@@ -2899,8 +3060,8 @@ fn main() {
                 );
             });
             rep.notes.push(format!(
-                "{total} cases: {} fixed boundary trees, then {} orders of dependency chains of 3-5 imports (module and block level) and {} orders of module -> enum -> variant chains, then generated module trees, each as written and with every scope's imports reversed / rotated; every third also written to disk and discovered",
-                fixed_cases().len(), chain_perms_per_placement() * CHAIN_PLACEMENTS, ENUM_CHAIN_CASES
+                "{total} cases: {} fixed boundary trees, then {} orders of dependency chains of 3-5 imports (module and block level) and {} orders of module -> enum -> variant chains, {} shapes of nested import lists, then generated module trees, each as written and with every scope's imports reversed / rotated; every third also written to disk and discovered",
+                fixed_cases().len(), chain_perms_per_placement() * CHAIN_PLACEMENTS, ENUM_CHAIN_CASES, list_cases()
             ));
             rep.emit();
         }
@@ -2933,6 +3094,8 @@ fn main() {
             let mut p = if (index as usize) < fixed.len() {
                 fixed[index as usize].clone()
             } else if let Some(c) = chain_case(index - fixed.len() as u64) {
+                c
+            } else if let Some(c) = (index - fixed.len() as u64).checked_sub(chain_perms_per_placement() * CHAIN_PLACEMENTS + ENUM_CHAIN_CASES).and_then(list_case) {
                 c
             } else {
                 gen_case(&mut drv, seed, index, tier)
